@@ -111,6 +111,13 @@ func runC06(c *core.Ctx, r *core.Result) {
 							}
 						}
 					}
+					// rendering and encoding are read-only: whatever the strings
+					// contain, the same error renders the same again afterwards
+					firstV := string(redact.Sprintf("%+v", e))
+					tm.Encode(e)
+					if again := string(redact.Sprintf("%+v", e)); again != firstV {
+						return fail("encode-changes-rendering:"+st.name, "after EncodeError the same error renders differently at stage %s: %s", st.name, short(tm.FirstDiffStr(firstV, again)))
+					}
 					rsS := string(redact.Sprint(e))
 					if g := markerGrammar(rsS); g != "" {
 						return fail("grammar:Sprint:"+st.name, "redact.Sprint at stage %s is not well-formed: %s: %q", st.name, g, short(rsS))
